@@ -404,6 +404,10 @@ def run(ck):
     ck.floor("C07.G14 functions scanned for attribute reads under isinstance guards", n_fn, 150)
     if not n_hit:
         ck.ok("C07.G14", "run path", "src/", f"{n_fn} functions: every attribute read under an isinstance guard exists on the guarded class(es)")
+    ck.clause("C07.G20", "no option accepts less than it did: a narrowed type or choice list turns a setting the help allows into a usage "
+                         "error (exit status 2, no XMAP written)")
+    from ..rules.common import option_interface
+    option_interface(ck, "C07.G20")
     ck.clause("C07.G18", "the worker pool is never sized by the number of molecules without a floor of 1: the second pass legitimately "
                          "runs on an empty fragment list, and a pool of 0 processes raises ValueError")
     fn18, call18, mapname18, _, _ = parallel_map_site(ctx)
